@@ -104,10 +104,14 @@ def rolloutAddArgs : List (String × ArgMode) :=
 
 def stepRes : List (String × ResMode) := [("obs", .fresh), ("rewards", .fresh), ("dones", .fresh), ("infos", .fresh)]
 
-/-- `HerReplayBuffer(copy_info_dict=True).add` keeps the caller's info dicts themselves
-(`self.infos[self.pos] = infos`): recorded finding K-C19-a. -/
+/-- `HerReplayBuffer(copy_info_dict=True).add` stores deep copies of the caller's info dicts
+(`self.infos[self.pos] = copy.deepcopy(infos)`, repaired finding K-C19-a, commit cb7b2df; before the repair the
+dict objects themselves were stored: the shape of `alias_breaks_it_her_infos_by_reference`). -/
 def herAddCopyInfo : Row :=
-  { cls := "HerReplayBuffer", call := "add", variant := "copy_info_dict", args := replayAddArgs .storedByRef, res := [] }
+  { cls := "HerReplayBuffer", call := "add", variant := "copy_info_dict", args := replayAddArgs .storedByCopy, res := [] }
+
+/-- the signature that row had before the repair (used only by the converse witness) -/
+def herAddCopyInfoOld : Sig := ⟨(replayAddArgs .storedByRef).map (·.2), []⟩
 
 def apiRows : List Row := [
   -- base vectorised environments
@@ -180,7 +184,7 @@ def findLayer (cls variant : String) : Option Layer :=
 def stackRow (base : Row) (layers : List Layer) (call : String) : Row := layers.foldl (applyLayer call) base
 
 /-- rows of the sentence of the property that do not follow the copy discipline -/
-def exceptions : List (String × String × String) := [("HerReplayBuffer", "add", "copy_info_dict")]
+def exceptions : List (String × String × String) := []
 
 def Row.key (r : Row) : String × String × String := (r.cls, r.call, r.variant)
 
